@@ -11,11 +11,17 @@ def fCsr (j : Json) (k : String) : R Csr := field j k >>= jCsr
 
 def ofBool (b : Bool) : Json := .bool b
 
-/-- answer for a matrix result: the raw arrays, the dense reading, and well-formedness -/
-def csrOut (C : Csr) (wfIn : List Bool) : Json :=
+/-- answer for a matrix result: the raw arrays, the dense line-wise reading, the dense matrix in
+    ordinary orientation (`dense_std`: for csc through `Csc.toDense`, scipy's column-wise semantics),
+    and well-formedness -/
+def csrOutF (fmt : String) (C : Csr) (wfIn : List Bool) : Json :=
+  let std := if fmt == "csc" then (Csc.ofRead C).toDense else C.toDense
   obj [("nrows", ofNat C.nrows), ("ncols", ofNat C.ncols), ("indptr", ofNats C.indptr),
        ("indices", ofNats C.indices), ("data", ofRats C.data),
-       ("dense", ofList ofRats C.toDense), ("wf_in", ofList ofBool wfIn), ("wf_out", ofBool C.wfb)]
+       ("dense", ofList ofRats C.toDense), ("dense_std", ofList ofRats std),
+       ("wf_in", ofList ofBool wfIn), ("wf_out", ofBool C.wfb)]
+
+def csrOut (C : Csr) (wfIn : List Bool) : Json := csrOutF "csr" C wfIn
 
 def exc (e : Except String Json) : Json :=
   match e with
@@ -44,17 +50,21 @@ def step (j : Json) : R Json := do
     let want ← fStr j "want"
     let lines ← fNats j "lines"
     if fmt != want then pure (err "ValueError") else
-    pure (csrOut (zeroLines A lines) [A.wfb])
+    if fmt == "csc" then pure (csrOutF fmt (zeroColumns (Csc.ofRead A) lines).read [A.wfb]) else
+    pure (csrOutF fmt (zeroLines A lines) [A.wfb])
   | "slice" =>
     let A ← fCsr j "A"
     let fmt ← fStr j "fmt"
     let ind ← fNats j "ind"
     if !isCompressed fmt then pure (err "ValueError") else
-    pure (csrOut (sliceLines A ind) [A.wfb])
+    if fmt == "csc" then pure (csrOutF fmt (sliceCols (Csc.ofRead A) ind).read [A.wfb]) else
+    pure (csrOutF fmt (sliceLines A ind) [A.wfb])
   | "slice_mask" =>
     let A ← fCsr j "A"
     let mask ← field j "mask" >>= jList jBool
-    pure (csrOut (sliceLines A (whereTrue mask)) [A.wfb])
+    let fmt ← fStr j "fmt"
+    if fmt == "csc" then pure (csrOutF fmt (sliceCols (Csc.ofRead A) (whereTrue mask)).read [A.wfb]) else
+    pure (csrOutF fmt (sliceLines A (whereTrue mask)) [A.wfb])
   | "slice_indices" =>
     let A ← fCsr j "A"
     let ind ← fNats j "ind"
@@ -80,7 +90,9 @@ def step (j : Json) : R Json := do
     if fmtA != fmt || fmtB != fmt then pure (err "ValueError") else
     match mergeCheck A B lines with
     | some e => pure (err e)
-    | none => pure (csrOut (mergeLines A B lines) [A.wfb, B.wfb])
+    | none =>
+      if fmt == "csc" then pure (csrOutF fmt (mergeCols (Csc.ofRead A) (Csc.ofRead B) lines).read [A.wfb, B.wfb]) else
+      pure (csrOutF fmt (mergeLines A B lines) [A.wfb, B.wfb])
   | "stack_mat" =>
     let A ← fCsr j "A"
     let B ← fCsr j "B"
@@ -89,7 +101,8 @@ def step (j : Json) : R Json := do
     if !isCompressed fmtA then pure (err "ValueError") else
     if fmtA != fmtB then pure (err "ValueError") else
     if A.ncols != B.ncols then pure (err "ValueError") else
-    pure (csrOut (stackMat A B) [A.wfb, B.wfb])
+    if fmtA == "csc" then pure (csrOutF fmtA (stackMatCsc (Csc.ofRead A) (Csc.ofRead B)).read [A.wfb, B.wfb]) else
+    pure (csrOutF fmtA (stackMat A B) [A.wfb, B.wfb])
   | "stack_diag" =>
     let A ← fCsr j "A"
     let B ← fCsr j "B"
@@ -97,15 +110,21 @@ def step (j : Json) : R Json := do
     let fmtB ← fStr j "fmtB"
     if !isCompressed fmtA then pure (err "ValueError") else
     if fmtA != fmtB then pure (err "ValueError") else
-    pure (csrOut (stackDiag A B) [A.wfb, B.wfb])
+    if fmtA == "csc" then pure (csrOutF fmtA (stackDiagCsc (Csc.ofRead A) (Csc.ofRead B)).read [A.wfb, B.wfb]) else
+    pure (csrOutF fmtA (stackDiag A B) [A.wfb, B.wfb])
   | "from_sparse_blocks" =>
     let bs ← field j "blocks" >>= jList jCsr
-    pure (exc ((fromSparseBlocks bs).map (fun C => csrOut C (bs.map (·.wfb)))))
+    let fmt ← fStr j "fmt"
+    if fmt == "csc" then
+      pure (exc ((cscFromSparseBlocks (bs.map Csc.ofRead)).map (fun C => csrOutF fmt C.read (bs.map (·.wfb))))) else
+    pure (exc ((fromSparseBlocks bs).map (fun C => csrOutF fmt C (bs.map (·.wfb)))))
   | "from_dense_blocks" =>
     let data ← fRats j "data"
     let bs ← fNat j "block_size"
     let nb ← fNat j "num_blocks"
-    pure (exc ((fromDenseBlocks data bs nb).map (fun C => csrOut C [])))
+    let fmt ← fStr j "fmt"
+    if fmt == "csc" then pure (exc ((cscFromDenseBlocks data bs nb).map (fun C => csrOutF fmt C.read []))) else
+    pure (exc ((fromDenseBlocks data bs nb).map (fun C => csrOutF fmt C [])))
   | "bdi" =>
     let m ← fInts j "m"
     let n ← fInts j "n"
@@ -120,7 +139,7 @@ def step (j : Json) : R Json := do
   | "kron" =>
     let A ← fCsr j "A"
     let nd ← fNat j "nd"
-    let C := if nd = 1 then A else kronI A nd
+    let C := sparseKron A nd
     pure (obj [("dense", ofList ofRats C.toDense), ("nrows", ofNat C.nrows), ("ncols", ofNat C.ncols),
                ("wf_in", ofList ofBool [A.wfb]), ("wf_out", ofBool C.wfb)])
   | "nd" =>
@@ -134,9 +153,10 @@ def step (j : Json) : R Json := do
     let inc ← fInt j "increment"
     pure (obj [("out", ofInts (expandIndicesIncr x n inc))])
   | "opt" =>
-    let r ← fNat j "nrows"
-    let c ← fNat j "ncols"
-    pure (obj [("fmt", Json.str (if optimizedIsCsc r c then "csc" else "csr"))])
+    let A ← fCsr j "A"
+    match optimizedStorage A with
+    | .inl R => pure (obj [("fmt", Json.str "csr"), ("dense_std", ofList ofRats R.toDense)])
+    | .inr C => pure (obj [("fmt", Json.str "csc"), ("dense_std", ofList ofRats C.toDense)])
   | _ => throw s!"unknown op {op}"
 
 def main : IO Unit := runPure step
